@@ -4,7 +4,7 @@
 id=$1; shift
 prop=${id%%-*}
 round=${id##*-}
-wt=/tmp/mut-$prop; [ "$round" = "2" ] && wt=/tmp/m2-$prop; [ "$round" = "3" ] && wt=/tmp/m3-$prop; [ "$round" = "4" ] && wt=/tmp/m4-$prop
+wt=/tmp/mut-$prop; [ "$round" = "2" ] && wt=/tmp/m2-$prop; [ "$round" = "3" ] && wt=/tmp/m3-$prop; [ "$round" = "4" ] && wt=/tmp/m4-$prop; [ "$round" = "5" ] && wt=/tmp/m5-$prop
 props=${@:-$prop}
 mkdir -p out
 for p in $props; do
